@@ -141,6 +141,8 @@ def items(events, case="lower", trailing_dangling=False):
             cls = class_name_at(events, i)
             mname = nm if k == "cpp_member" else ev.get("ctor", "CTOR")
             cmd(k, [mname, cls] + list(ev.get("types", [])))
+            if "declgap" in ev:       # blank line ("") or an ordinary comment between the declaration and its definition
+                out.append(("comment", ev["declgap"]))
             for bname, bargs in ev.get("between", []):
                 cmd(bname, list(bargs))
             if ev.get("impldoc"):
@@ -153,6 +155,8 @@ def items(events, case="lower", trailing_dangling=False):
             if "args" in ev:
                 args = list(ev["args"])
             cmd(k, args)
+            if "declgap" in ev:
+                out.append(("comment", ev["declgap"]))
             for bname, bargs in ev.get("between", []):
                 cmd(bname, list(bargs))
             if ev.get("impldoc"):
